@@ -326,6 +326,50 @@ def observational(ctx, prof, pfile, progs, wd, ncorpus):
     return clean
 
 
+# The in-process observational tie REPLICATES the CLI's load sequence (harness/Cargo.toml.in does not link the cli
+# crate).  These are the functions it was copied from, with the hash of their (comment- and blank-normalised)
+# bodies at the time of copying.  When one of them changes, the replication can no longer be trusted to behave
+# like the CLI: that is not an alarm (a refactor is allowed), but from then on EVERY program goes through the
+# real CLI binary as well, so that the change is judged by its behaviour.
+REPLICATED = {
+    "cli/src/cli/commands/run.rs": {
+        "collect_required_modules": "6eeecd81c93b", "collect_required_modules_rec": "8d184b482f55",
+        "load_required_modules": "d0c8dab1f6cf", "try_load_std_module": "c650a6347edd",
+        "run_avbc_file": "cdd5367c379a", "run_aasm_file": "f5d9b8031486", "reconstruct_function_hierarchy": "9553f3918c50"},
+}
+
+
+def load_sequence_drift(ctx):
+    import hashlib
+    import extract
+    from extractors import c08 as ex
+    drift = []
+    for rel, fns in REPLICATED.items():
+        try:
+            text = extract.strip_comments(extract.rd(rel))
+        except extract.ExtractError as e:
+            drift.append(f"{rel}: {e}")
+            continue
+        for fn, want in fns.items():
+            try:
+                got = hashlib.sha1(" ".join(ex.fn_body(text, fn).split()).encode()).hexdigest()[:12]
+            except extract.ExtractError:
+                got = None
+            if got != want:
+                drift.append(f"{rel}: fn {fn} " + ("is gone" if got is None else "changed"))
+        # the walk over the function tree must reach every nesting level
+        try:
+            rec = ex.fn_body(text, "collect_required_modules_rec")
+            if "nested_functions" not in rec or "collect_required_modules_rec(" not in rec:
+                drift.append(f"{rel}: collect_required_modules_rec no longer recurses over nested_functions")
+        except extract.ExtractError:
+            pass
+    ctx.cov["cli_load_sequence_drift"] = drift
+    if drift:
+        ctx.log("cli load sequence differs from what the harness replicates: every program also goes through the CLI binary: " + "; ".join(drift)[:300])
+    return drift
+
+
 def cli_sample(ctx, progs, clean, wd, limit):
     cli = cli_build(ctx)
     if not cli:
@@ -333,7 +377,10 @@ def cli_sample(ctx, progs, clean, wd, limit):
         return
     n = 0
     res = collections.Counter()
-    for i, p in enumerate(progs):
+    # programs that need a module the VM does not register by itself first: re-linking them is CLI code
+    order = sorted(range(len(progs)), key=lambda i: (0 if re.search(r"needs std\.(sys|bytes|fs|net)", progs[i]) else 1, i))
+    for i in order:
+        p = progs[i]
         if n >= limit:
             break
         for opt in (0, 2):
@@ -440,7 +487,8 @@ def run(ctx):
         ctx.log(out[-2000:])
     multi_file_cases(ctx, wd)
     ctx.log("cli sample")
-    cli_sample(ctx, progs, clean, wd, 24 if quick else 150)
+    drift = load_sequence_drift(ctx)
+    cli_sample(ctx, progs, clean, wd, 10 ** 6 if drift else (30 if quick else 150))
     ctx.cov["input_distribution"] = (
         "codec: Functions compiled from the program stream at (-O0, -O2, -O2 stripped), seeded hand-built Functions (0-3 levels of "
         "nesting, all 7 constant kinds incl. dangling and aliasing pointers, opcodes 77/78/104 with random cache words, call opcode as "
